@@ -115,7 +115,8 @@ fn observe_gr<'a>(
 }
 
 /// patterns of the `regex` family (index = first parameter); the check holds the same table
-const PATTERNS: [&str; 10] = ["[0-9]+", "[a-zA-Z_][a-zA-Z0-9_]*", "a|ab", "(ab)*", "a*", "ab|a", "[^ ]+", ".", "é+", "a?b"];
+const PATTERNS: [&str; 16] = ["[0-9]+", "[a-zA-Z_][a-zA-Z0-9_]*", "a|ab", "(ab)*", "a*", "ab|a", "[^ ]+", ".", "é+", "a?b",
+    r"\bb", "^a", r"\Bb", r"\ba\b", "(?m)^a", r"a\b"];
 
 macro_rules! dispatch {
     ($pname:expr, $params:expr, $obs:ident, $inp:expr, $kw:expr, $newline:expr) => {{
@@ -133,6 +134,14 @@ macro_rules! dispatch {
             "pad_aident" => $obs(text::ascii::ident().padded(), $inp),
             "newline" => $newline,
             "regex" => $obs(chumsky::regex::regex(PATTERNS[r as usize % PATTERNS.len()]), $inp),
+            // the same pattern after `k` arbitrary tokens: look-behind assertions (`^`, `\b`, `\B`) must see what precedes the cursor
+            "regex_at" => $obs(
+                any()
+                    .repeated()
+                    .exactly($params.get(1).copied().unwrap_or(1) as usize)
+                    .ignore_then(chumsky::regex::regex(PATTERNS[r as usize % PATTERNS.len()])),
+                $inp
+            ),
             other => format!("ERR unknown-parser-{other}"),
         }
     }};
